@@ -74,11 +74,12 @@ int main(int argc, char **argv) {
     int n = (int) A.geti("n", 4);
     int need_len = (int) A.geti("need-cycle-len", 0);      // only graphs that contain a simple cycle with at least this many edges
     int max_m = (int) A.geti("max-m", 62), min_m = (int) A.geti("min-m", 0);
-    uint64_t total_units = vg::num_graphs(n), seed = (uint64_t) A.geti("seed", 0);
+    std::vector<std::string> fams; if (A.has("families")) fams = vr::split(A.get("families"), ',');
+    uint64_t total_units = fams.empty() ? vg::num_graphs(n) : fams.size(), seed = (uint64_t) A.geti("seed", 0);
     int orient_mode = (int) A.geti("orient", 0);
     vg::plus_heavy_k2() = A.has("plus-heavy-k2");
     vg::edge_order_mode() = (int) A.geti("eorder", 0);
-    auto unit_graph0 = [&](uint64_t u) { return vg::graph_from_mask(n, (u + seed) % total_units); };
+    auto unit_graph0 = [&](uint64_t u) { return fams.empty() ? vg::graph_from_mask(n, (u + seed) % total_units) : vg::family(fams[(u + seed) % total_units]); };
     auto unit_graph = [&](uint64_t u) { vg::EdgeList g = unit_graph0(u); vg::order_edges(g); vg::orient(g, orient_mode); if (vg::plus_heavy_k2()) { g.e.push_back({g.n, g.n + 1}); g.n += 2; } return g; };
     auto describe = [&](uint64_t u, uint64_t sub, uint64_t var) { vg::EdgeList el = unit_graph(u); std::vector<double> w; vg::weighting(alpha, el.m(), sub, w); return std::make_pair(std::string(vv::variant_name((int) var)), vg::case_string(el, w, std::string("variant=") + vv::variant_name((int) var))); };
     auto work = [&](uint64_t u, uint64_t start_sub) {
